@@ -84,13 +84,14 @@ def floors(tier):
     return {"evaluations": 60_000, "distinct": 30_000,
             "counters": {"enc_cases": 32768, "dec_cases": 20_000 if tier == "quick" else 500_000, "corpus_records": 50_000,
                          "contract:record_roundtrip": 32768, "contract:record_decode": 100_000,
-                         "dec_with_uninterpreted_before_interpreted": 1000}}
+                         "dec_with_uninterpreted_before_interpreted": 1000,
+                         "enc_cases_with_a_zero_id": 3000, "dec_cases_with_a_zero_id": 5000, "enc_cases_with_16_17_digit_payload": 500}}
 
 
 def plan(tier, seed):
     specs = []
     for k in ENC_KINDS:
-        specs.append({"part": "enc", "kind": k, "seed": seed, "tier": tier, "payloads": 1 if tier == "quick" else 8})
+        specs.append({"part": "enc", "kind": k, "seed": seed, "tier": tier, "payloads": 3 if tier == "quick" else 24})
     kinds = list(TYPE)
     if tier == "thorough":
         for k in kinds:
@@ -110,10 +111,15 @@ def plan(tier, seed):
 def payload_value(kind, rng):
     if kind in ("number", "currency"):
         c = rng.random()
-        if c < .3:
+        if c < .25:
             return float(rng.randrange(-10 ** 6, 10 ** 6))
-        if c < .6:
+        if c < .5:
             return rng.randrange(0, 10 ** 7) / 100.0
+        if c < .7:
+            # any finite double is a legal payload of a record (a file may carry 16-17 significant digits):
+            # full-precision values, with the top of every binade (significand near 2**57 in decimal) well represented
+            x = (rng.uniform(7.2, 8.0) if rng.random() < .5 else rng.random()) * 2.0 ** rng.randrange(-40, 40)
+            return -x if rng.random() < .5 else x
         m = rng.randrange(1, 10 ** 15)
         e = rng.randrange(-30, 30)
         return float(f"{'-' if rng.random() < .5 else ''}{m}e{e - 14}")
@@ -162,7 +168,8 @@ def enc_case(kind, mask, salt, value, rec, stub):
         ids = {}
         for i, a in enumerate(OPT):
             if mask >> i & 1:
-                ids[a] = 0x1000 * (i + 1) + salt
+                # id 0 is a legal reference value (a field that is present and holds 0 is not an absent field)
+                ids[a] = 0 if (salt >> (i % 12)) & 7 == 0 and a != "_rich_id" else 0x1000 * (i + 1) + salt
                 setattr(c, a, ids[a])
         if kind == "rich" and "_rich_id" not in ids:
             ids["_rich_id"] = 0x6660 + salt % 16
@@ -222,6 +229,10 @@ def enc_case(kind, mask, salt, value, rec, stub):
             v("lib_roundtrip_value", {"payload": kind}, {"want": repr(value), "got": repr(c2.value)})
     rec.case(("enc", kind, mask), nontrivial=nopt > 0)
     rec.count("enc_cases")
+    if any(v_ == 0 for v_ in ids.values()):
+        rec.count("enc_cases_with_a_zero_id")
+    if isinstance(value, float) and len(repr(value).replace("-", "").replace(".", "").lstrip("0").split("e")[0]) >= 16:
+        rec.count("enc_cases_with_16_17_digit_payload")
     rec.hist("enc_optional_fields", nopt)
 
 
@@ -251,7 +262,7 @@ def dec_case(kind, flags_np, extra_payload_bits, salt, rec, stub, rng):
         elif name in ("double", "seconds"):
             fields[name] = float(rng.randrange(0, 10 ** 8))
         else:
-            fields[name] = 0x1000 * (i + 1) + salt
+            fields[name] = 0 if rng.random() < .1 else 0x1000 * (i + 1) + salt
             want[name] = fields[name]
     case = {"part": "dec", "kind": kind, "flags": flags, "salt": salt}
     buf = cellrec.encode(TYPE[kind], fields)
@@ -268,12 +279,14 @@ def dec_case(kind, flags_np, extra_payload_bits, salt, rec, stub, rng):
         if got != want.get(name):
             # which uninterpreted bits sit *below* this field: the mechanism discriminator
             below = unint & (cellrec.BIT[name] - 1)
-            rec.violation("dec_id_slot", {"field": name, "uninterpreted_below": hex(below)},
+            rec.violation("dec_id_slot", {"field": name, "uninterpreted_below": hex(below), "stored_zero": want.get(name) == 0},
                           {"kind": kind, "flags": hex(flags), "want": want.get(name), "got": got}, case=case)
             break
     nopt = bin(flags_np).count("1")
     rec.case(("dec", kind, flags), nontrivial=nopt > 0)
     rec.count("dec_cases")
+    if any(v_ == 0 for v_ in want.values()):
+        rec.count("dec_cases_with_a_zero_id")
     low = unint & 0x980
     if low:
         lowest = low & -low
